@@ -99,7 +99,17 @@ def run(ctx):
     paths = ctx.paths(FR)
     body = ctx.body(FR)
     if paths:
-        names = {i: body.local_name(i) for i in range(len(body.f["locals"]))}
+        # state variables by role: `indexes` is the vector returned in Ok(..), `buffer` the String handed to str_to_index
+        names = {}
+        for p_ in paths:
+            if p_.end[0] == "return" and unwrap_ok(p_.end[1]) is not None:
+                r_ = unwrap_ok(p_.end[1])
+                if isinstance(r_, tuple) and r_[0] in ("havoc", "mutated"):
+                    names[r_[1]] = "indexes"
+            for e_ in p_.calls("ScanIndex::str_to_index"):
+                for s_ in subterms(e_.args[0]):
+                    if s_[0] in ("havoc", "mutated") and body.f["locals"][s_[1]]["ty"] == "std::string::String":
+                        names[s_[1]] = "buffer"
 
         def on(e, nm):
             a = e.args[0] if e.args else None
